@@ -4,7 +4,7 @@ use dmntk_feel::Scope;
 use serde_json::{json, Value as J};
 use std::io::{BufRead, Write};
 
-fn one(req: &J) -> J {
+pub fn one(req: &J) -> J {
   let ctx_text = req["ctx"].as_str().unwrap_or("");
   let e = req["e"].as_str().unwrap_or("");
   let mode = req["mode"].as_str().unwrap_or("expr");
